@@ -84,6 +84,8 @@ class SerializedEventAttempt(BaseModel):
 class SerializedWaiter(BaseModel):
     """Serialized representation of a waiter created by wait_for_event."""
 
+    model_config = ConfigDict(arbitrary_types_allowed=True)
+
     # Unique waiter ID
     waiter_id: str
     # The original event that triggered the wait (serialized)
@@ -94,6 +96,13 @@ class SerializedWaiter(BaseModel):
     has_requirements: bool = Field(default=False)
     # Resolved event if available (serialized), None otherwise
     resolved_event: str | None = None
+    # Retry bookkeeping of the invocation that registered the wait (see
+    # SerializedEventAttempt); absent in contexts written by older versions.
+    attempts: int | None = None
+    first_attempt_at: float | None = None
+    last_exception: SerializableOptionalException = None
+    last_failed_at: float | None = None
+    recovery_counts: dict[str, int] = Field(default_factory=dict)
 
     @model_validator(mode="before")
     @classmethod
